@@ -33,3 +33,31 @@ Example C19_src_examples :
   gen_Token_new (Cow_Owned [97; 98]) = Ret (mk_Token (Cow_Owned [97; 98])) /\
   gen_Token_new (Cow_Borrowed [97; 98]) = Ret (mk_Token (Cow_Borrowed [97; 98])).
 Proof. vm_compute. repeat split. Qed.
+
+(* ==== no allocating construct is reachable (DESIGN 13.14) ================================================================
+   Beside each translated function tools/rs2v.py emits [<f>_alloc_sites]: the number of places in its body - and, transitively,
+   in the translated functions it calls - where a std operation that CAN allocate on the heap occurs (to_string / to_owned /
+   into_owned / collect / clone of a String / String::from / with_capacity / Box::new / vec! / format! / push / push_str /
+   insert / extend / split_off ...; every construct the translator accepts is in its table, so nothing else can occur).
+   For the operations C19 lists as zero-copy the count is 0: whatever the input, no allocating operation is even
+   syntactically reachable.  (Token::new and decoded() allocate only on the escaping path: the theorems above.) *)
+From JP Require Import Generated.ScanPointer Generated.ScanPtrOps Generated.ScanSlice Generated.ScanConv.
+
+Theorem C19_src_zero_copy_operations_have_no_allocation_site :
+  forallb (N.eqb 0)
+    [ gen_validate_bytes_alloc_sites; gen_validate_alloc_sites; gen_Pointer_parse_alloc_sites;            (* parsing a borrowed pointer *)
+      gen_Token_from_encoded_alloc_sites; gen_Token_encoded_alloc_sites;
+      gen_Pointer_tokens_alloc_sites; gen_Tokens_new_alloc_sites; gen_Tokens_next_alloc_sites;            (* iterating tokens ... *)
+      gen_Components_from_alloc_sites; gen_Components_next_alloc_sites;                                    (* ... and components *)
+      gen_Pointer_first_alloc_sites; gen_Pointer_front_alloc_sites; gen_Pointer_last_alloc_sites; gen_Pointer_back_alloc_sites;
+      gen_get_usize_alloc_sites; gen_Pointer_count_alloc_sites; gen_Pointer_is_root_alloc_sites;
+      gen_Pointer_split_front_alloc_sites; gen_Pointer_split_back_alloc_sites; gen_Pointer_split_at_alloc_sites;   (* every split *)
+      gen_Pointer_parent_alloc_sites;
+      gen_get_Range_alloc_sites; gen_get_RangeFrom_alloc_sites; gen_get_RangeTo_alloc_sites; gen_get_RangeFull_alloc_sites;
+      gen_get_RangeInclusive_alloc_sites; gen_get_RangeToInclusive_alloc_sites; gen_get_Bounds_alloc_sites;  (* range slices *)
+      gen_Pointer_strip_prefix_alloc_sites; gen_Pointer_strip_suffix_alloc_sites;
+      gen_Pointer_starts_with_alloc_sites; gen_Pointer_ends_with_alloc_sites; gen_Pointer_intersection_alloc_sites;
+      gen_PointerBuf_new_alloc_sites; gen_PointerBuf_root_alloc_sites;
+      gen_Pointer_as_str_alloc_sites; gen_PointerBuf_deref_alloc_sites ] = true.
+Proof. vm_compute. reflexivity. Qed.
+Print Assumptions C19_src_zero_copy_operations_have_no_allocation_site.
